@@ -58,11 +58,37 @@ class UnitResult:
         return self.__dict__
 
 
-def build_unit(name, sentinel=False):
+def build_unit(name, sentinel=False, disabled_hints=(), extra_consts=()):
     mod = importlib.import_module('units.' + name.lower().replace('-', '_'))
     u = Unit(name, REPO, VERIF, sentinel=sentinel)
+    u.disabled_hints = set(disabled_hints)
     mod.build(u)
+    # constants that changed code refers to and the unit description does not list: sliced from the unit's own source files
+    for cname in extra_consts:
+        for rel, src in list(u.sources.items()):
+            try:
+                src.find('const ' + cname)
+            except LostAnchor:
+                continue
+            u.emit(rel, 'const ' + cname)
+            u.relaxed.append('constant %s (not in the unit description) sliced from %s because the code now refers to it' % (cname, rel))
+            break
     return u
+
+
+def hints_at(text, lines):
+    """ids of the ghost-hint regions (//@hint .. //@endhint) that contain any of the given 1-based line numbers"""
+    ids = set()
+    cur = None
+    for i, l in enumerate(text.split('\n'), 1):
+        s = l.strip()
+        if s.startswith('//@hint '):
+            cur = s[len('//@hint '):]
+        elif s.startswith('//@endhint'):
+            cur = None
+        elif cur and i in lines:
+            ids.add(cur)
+    return ids
 
 
 def scan_assumptions(text):
@@ -77,14 +103,14 @@ def scan_assumptions(text):
     return found
 
 
-def verify_unit(name, tier='quick', seed=0, threads=8):
+def verify_unit(name, tier='quick', seed=0, threads=8, disabled_hints=(), depth=0, extra_consts=()):
     r = UnitResult(name)
     t0 = time.time()
     os.makedirs(WORK, exist_ok=True)
     try:
-        u = build_unit(name, sentinel=False)
+        u = build_unit(name, sentinel=False, disabled_hints=disabled_hints, extra_consts=extra_consts)
         text = u.text()
-        us = build_unit(name, sentinel=True)
+        us = build_unit(name, sentinel=True, disabled_hints=disabled_hints, extra_consts=extra_consts)
         stext = us.text()
     except LostAnchor as e:
         r.status, r.reason = 'undecided', 'lost-anchor: %s' % e
@@ -143,6 +169,19 @@ def verify_unit(name, tier='quick', seed=0, threads=8):
             r.smt_ms = res['times-ms']['smt']['total']
         except Exception:
             pass
+    if tool and depth < 3:
+        # a ghost hint that no longer type-checks in changed code is dropped and the unit re-verified (relaxed anchor):
+        # hints are ghost, dropping one can only make the proof harder
+        bad = hints_at(text, set(t['line'] for t in tool if t['line']))
+        if bad and all(t['line'] and hints_at(text, {t['line']}) for t in tool):
+            return verify_unit(name, tier, seed, threads, tuple(set(disabled_hints) | bad), depth + 1, extra_consts)
+        missing = set()
+        for t in tool:
+            m = re.match(r'cannot find value `([A-Z][A-Z0-9_]*)` in this scope', t['message'])
+            if m:
+                missing.add(m.group(1))
+        if missing and not (missing <= set(extra_consts)):
+            return verify_unit(name, tier, seed, threads, disabled_hints, depth + 1, tuple(set(extra_consts) | missing))
     if tool or res is None or vr['rc'] not in (0, 1) or (res and res['verification-results'].get('encountered-vir-error')):
         r.status = 'undecided'
         r.reason = 'verus rejected the generated file or crashed: ' + '; '.join(
